@@ -1,0 +1,8 @@
+//go:build !verif
+
+// Package verifhook provides named instrumentation points for the verification harness.
+// Without the "verif" build tag every point is an empty function the compiler inlines away.
+package verifhook
+
+// Point marks a place where the verification harness may pause or fail the calling goroutine.
+func Point(name, key string) {}
